@@ -55,7 +55,7 @@ RULE = (
     "values the scripted counters predict.  fault case = (n_envs 2-3, [(worker, command in reset|step|call|set_attr, "
     "invocation number 0-3, kind in raise_value|raise_key|raise_custom|raise_custom2|raise_unpicklable|sleep|delay|"
     "kill_exit|kill_sigkill)] single or double, call mode sync|async|async+timeout, phase wait|close-while-pending, "
-    "close variant, caller ops attempted after the failure); non-trivial = the planned fault was confirmed by the "
+    "close variant, timeout value handed to *_wait / close in 0.1|0|0.0|0.001, caller ops attempted after the failure); non-trivial = the planned fault was confirmed by the "
     "worker's marker AND the close()/no-worker-alive oracle was evaluated (returned, raised or structurally "
     "dead-locked); distinct = distinct case descriptions"
 )
@@ -67,6 +67,9 @@ ASSUMPTIONS = [
     "dead-lock is decided from three /proc samples (state S in read/wait4/poll(-1), identical context-switch and CPU counters, workers dead or blocked in read); Linux x86_64 syscall numbers; otherwise the case is inconclusive",
     "'promptly' = bounded progress: no dead-lock and return before the 30 s silence watchdog (a sleeper is released by the driver as soon as the timed wait came back, i.e. after ~0.1 s; it sleeps 0.3 s where the interface has no timeout and gives up after 6 s on trees that ignore timeouts); absolute latency is not asserted",
     "caller operations attempted after a worker fault (other than close) are not judged except for dead-lock (monitor after_fault_deadlock)",
+    "timeouts are decided with gated sleepers: the worker stays blocked until the driver opens its gate, which happens only after *_wait(timeout=t) "
+    "(t in 0, 0.0, 0.001, 0.1) or close(terminate=True)/close(timeout=t) on the pending call has come back; a sleeper that leaves its gate on its own (6 s) "
+    "before close() returned proves that close() waited for it (monitor close_prompt)",
     "the dead-lock detector is validated in every run: a synthetic two-process dead-lock (independent of AgileRL) must be recognised and a worker that is slow for 4.5 s must be classified as progress, else the run is inconclusive",
     "after close() raised, workers get a 3 s grace to exit; one that is still alive and blocked in read() is reported, one that is still runnable makes the case inconclusive",
 ]
@@ -79,6 +82,8 @@ REQUIRED_COUNTERS = [
     "accepted_call_value_checks",
     "fault_exception_type_checks",
     "timeout_checks",
+    "timeout_zero_checks",
+    "close_on_gated_sleeper_checks",
     "close_return_checks",
     "no_worker_alive_checks",
 ]
@@ -127,7 +132,8 @@ FAMILY = {
 AGENTS = ["a0", "a1"]
 SLEEP_S = 0.3  # injected sleep where the interface offers no timeout (set_attr, close() on a pending call)
 SLEEP_MAX_S = 6.0  # a gated sleeper gives up waiting for its release after this long (only reached on broken trees)
-T_SHORT = 0.1  # timeout handed to *_wait when a sleep is planned
+T_SHORT = 0.1  # default timeout handed to *_wait when a sleep is planned (case field "tmo" overrides it)
+TIMEOUTS = [0.1, 0, 0.0, 0.001]  # the timeout values enumerated for sleepers: int 0, float 0.0, tiny, ordinary
 T_LONG = 12.0  # timeout handed to *_wait when nothing slow is planned (must never fire; < WATCHDOG_S)
 T_AFTER = 1.0  # finite timeout for caller ops attempted after a fault
 DELAY_S = 0.05
@@ -231,7 +237,13 @@ def _make_env_class():
                         if gate >= 0:
                             import select
 
-                            select.select([gate], [], [], SLEEP_MAX_S)
+                            ready, _, _ = select.select([gate], [], [], SLEEP_MAX_S)
+                            if not ready and self.marker_fd >= 0:
+                                # nobody opened the gate: the caller kept waiting for this worker
+                                try:
+                                    os.write(self.marker_fd, f"gaveup {self.index} {cmd} {n} {kind}\n".encode())
+                                except OSError:
+                                    pass
                         else:
                             time.sleep(SLEEP_S)
                     elif kind == "delay":
@@ -843,6 +855,15 @@ def _read_marker(marker_fd):
     return out
 
 
+def _read_gaveup(marker_fd):
+    """sleepers that left their gate because SLEEP_MAX_S expired (the driver had not released them)"""
+    try:
+        data = os.pread(marker_fd, 1 << 16, 0).decode()
+    except OSError:
+        return []
+    return [ln.split()[1:] for ln in data.splitlines() if ln.startswith("gaveup ")]
+
+
 def _families(faults):
     return "+".join(sorted({FAMILY[f["kind"]] for f in faults})) or "none"
 
@@ -905,6 +926,8 @@ def _drive_fault(job, em, tb_fd, marker_fd):
     after_left = int(job.get("after_ops", 0))
     failed = False
     pending_close = False
+    pending_gate_op = None  # scripted op whose sleepers stay gated until close() has come back
+    t_sleep = job.get("tmo", T_SHORT)
     first_cmd = script[fault_ops[0]]
     detail = {
         "fault_kinds": [f["kind"] for f in faults],
@@ -955,12 +978,14 @@ def _drive_fault(job, em, tb_fd, marker_fd):
                     em.violate("healthy_op", f"raised_{_exc_name(val)}", cmd + "_async", message=str(val)[:200], **detail)
                 if job.get("settle"):
                     time.sleep(float(job["settle"]))
-                release(i, after=SLEEP_S)
+                if job.get("close", "plain") == "plain":
+                    release(i, after=SLEEP_S)
+                pending_gate_op = i
                 failed = True
                 pending_close = True
                 break
             m_here = "async_timeout" if sleepy else mode
-            tmo = T_SHORT if sleepy else (T_LONG if m_here == "async_timeout" else None)
+            tmo = t_sleep if sleepy else (T_LONG if m_here == "async_timeout" else None)
             if not sleepy:
                 release(i, after=SLEEP_S)  # sleeper in set_attr: no timeout to outlast, merely slow
             st, val, where = _do_cmd(vec, cmd, m_here, tmo, arg, em, "fault_op", site=site)
@@ -983,13 +1008,20 @@ def _drive_fault(job, em, tb_fd, marker_fd):
             elif accept:
                 only_timeout = accept == {mp.TimeoutError}
                 em.hit("timeout_checks" if only_timeout else "fault_exception_type_checks")
+                if only_timeout and tmo == 0:
+                    em.hit("timeout_zero_checks")
+                if only_timeout:
+                    em.hit(f"timeout_value:{tmo!r}")
                 if got_cls not in accept:
                     want = "|".join(sorted(c.__name__ for c in accept))
                     em.violate(
                         "timeout_reported" if only_timeout else "exception_type",
-                        f"raised_{want}_seen_{got_cls.__name__ if got_cls else 'no_exception'}",
+                        f"raised_{want}_seen_{got_cls.__name__ if got_cls else 'no_exception'}"
+                        + ("_with_timeout_0" if only_timeout and tmo == 0 else ""),
                         site,
                         where=where,
+                        wait_timeout=repr(tmo),
+                        sleeper_left_gate_on_its_own=bool(_read_gaveup(marker_fd)),
                         message=str(val)[:200] if st == "exc" else None,
                         **detail,
                     )
@@ -1034,7 +1066,7 @@ def _drive_fault(job, em, tb_fd, marker_fd):
     variant = job.get("close", "plain")
     kw = {}
     if variant == "timeout":
-        kw = {"timeout": T_SHORT if any(f["kind"] == "sleep" for f in faults) and pending_close else 2.0}
+        kw = {"timeout": t_sleep if any(f["kind"] == "sleep" for f in faults) and pending_close else 2.0}
     elif variant == "terminate":
         kw = {"terminate": True}
     trig = _read_marker(marker_fd)
@@ -1053,6 +1085,29 @@ def _drive_fault(job, em, tb_fd, marker_fd):
     em.op("post_close", seconds=round(dt, 3))
     em.extra("close_seconds", round(dt, 3))
     trig = _read_marker(marker_fd)
+    gated = pending_gate_op is not None and variant != "plain" and any(j in gates and _op_index(f) == pending_gate_op for j, f in enumerate(faults))
+    if gated:
+        # close(terminate=True) / close(timeout=t) on a call that is pending on a gated sleeper: the gate is still
+        # shut here (it is only opened below), so close() must have come back without that worker's reply.  A
+        # sleeper that left its gate on its own (SLEEP_MAX_S) before close() returned means close() waited for it.
+        em.hit("close_on_gated_sleeper_checks")
+        em.hit(f"close_on_gated_sleeper:{variant}" + (f"({kw.get('timeout')!r})" if variant == "timeout" else ""))
+        at_gate = [t for t in trig if t["kind"] == "sleep" and _op_index(t) == pending_gate_op]
+        if at_gate:
+            em.hit("close_on_gated_sleeper_reached_gate")
+        gave = _read_gaveup(marker_fd)
+        if gave:
+            em.violate(
+                "close_prompt",
+                "close_waited_for_gated_sleeper_instead_of_terminating",
+                cur_site(),
+                close_kwargs={k: repr(v) for k, v in kw.items()},
+                close_seconds=round(dt, 3),
+                sleepers_that_gave_up=gave,
+                close_outcome="returned" if close_exc is None else _exc_name(close_exc),
+                **detail,
+            )
+        release(pending_gate_op)
     if close_exc is None:
         outcome = "returned"
         em.hit("close_returned")
@@ -1507,8 +1562,9 @@ def _supervise(job, rec: Recorder):
 
 
 # ----------------------------------------------------------------------------- cases
-def _fault_case(n_envs, faults, mode="sync", phase="wait", after_ops=0, close="plain", settle=0.0, reach_second=False):
+def _fault_case(n_envs, faults, mode="sync", phase="wait", after_ops=0, close="plain", settle=0.0, reach_second=False, tmo=T_SHORT):
     return {
+        "tmo": tmo,
         "kind": "fault",
         "n_envs": n_envs,
         "faults": faults,
@@ -1542,15 +1598,33 @@ PAIR_KINDS = [
 ]
 
 
+def _timeout_cases(tier, rng):
+    """sleepers against every timeout value: *_wait(timeout=t) and close(terminate=True) / close(timeout=t) on a pending call"""
+    ri = lambda n: int(rng.integers(n))  # noqa
+    out = []
+    reps = 1 if tier == "quick" else 4
+    for rep_i in range(reps):
+        for cmd in ("reset", "step", "call"):
+            for t in TIMEOUTS[1:] if tier == "quick" else TIMEOUTS:
+                ne = 2 + (ri(2) if rep_i else 0)
+                out.append(_fault_case(ne, [_F(ri(ne), cmd, ri(3) if rep_i else 0, "sleep")], mode="async_timeout", tmo=t, after_ops=ri(2) if rep_i else 0))
+            for variant, t in (("terminate", T_SHORT), ("timeout", 0), ("timeout", 0.0), ("timeout", 0.001)):
+                ne = 2 + (ri(2) if rep_i else 0)
+                out.append(
+                    _fault_case(ne, [_F(ri(ne), cmd, ri(3), "sleep")], mode="async_none", phase="close", close=variant, settle=0.0 if rep_i % 2 else 0.2, tmo=t)
+                )
+    return out
+
+
 def _fault_cases(tier, seed):
     rng = np.random.default_rng(7000 + seed)
-    out = []
+    out = _timeout_cases(tier, rng)
     ri = lambda n: int(rng.integers(n))  # noqa
     if tier == "quick":
         for ci, cmd in enumerate(CMDS):
             for ki, kind in enumerate(KINDS):
                 # corner: first worker, first invocation, plain close
-                out.append(_fault_case(2, [_F(0, cmd, 0, kind)], mode=MODES[(ci + ki) % 3]))
+                out.append(_fault_case(2, [_F(0, cmd, 0, kind)], mode=MODES[(ci + ki) % 3], tmo=TIMEOUTS[ci % 4]))
                 ne = 2 + ri(2)
                 out.append(
                     _fault_case(
@@ -1592,7 +1666,14 @@ def _fault_cases(tier, seed):
                     for nn in range(4):
                         for kind in KINDS:
                             out.append(
-                                _fault_case(ne, [_F(w, cmd, nn, kind)], mode=MODES[r % 3], after_ops=(r // 3) % 2, close=CLOSES[(r // 7) % 3] if r % 4 == 3 else "plain")
+                                _fault_case(
+                                    ne,
+                                    [_F(w, cmd, nn, kind)],
+                                    mode=MODES[r % 3],
+                                    after_ops=(r // 3) % 2,
+                                    close=CLOSES[(r // 7) % 3] if r % 4 == 3 else "plain",
+                                    tmo=TIMEOUTS[(nn + w) % 4],
+                                )
                             )
                             r += 1
         j = 0
